@@ -6,7 +6,7 @@ from vlib import common as C, serve as S, reqgen as G, strict_http as H, servech
 
 TRUSTED = ['scripted transport of the harness stands for the socket; Server::process is driven in-process on a named 2 MiB-stack thread as workers are']
 ASSUMPTIONS = ['real stack exhaustion and allocator failure are outside the model; the harness observes them as process aborts']
-WITH_MODEL = False
+WITH_MODEL = True
 
 def build(rng, tier):
     batches = []
